@@ -51,16 +51,18 @@ func c06Gen(r *Rand, tier string) interface{} {
 }
 
 type c06Exec struct {
-	fail       *Failure
-	positions  int // remote I/O positions used by the last Commit
-	cut        bool
-	commitErr  error
-	fired      int
-	trace      []string
+	fail      *Failure
+	positions int     // remote I/O positions used by the last Commit
+	lastStart int     // absolute position at which the last Commit began
+	ranges    [][2]int // absolute position ranges of the intermediate Commits
+	cut       bool
+	fired     int
+	trace     []string
 }
 
 // c06Execute runs the history once. failAt >= 0 injects a fault of the given kind at that
-// position of the LAST Commit.
+// ABSOLUTE remote I/O position (the executions replay the dry run's choices, so positions
+// line up until the fault). A fault may land in an intermediate Commit or in the last one.
 func c06Execute(in *cacheIn, env *Env, failAt int, kind string) (ex c06Exec) {
 	res := env.Sim(SimOpts{MaxSteps: 250000, FairSteps: 50000}, func() {
 		base, err := memfs.NewFilespace()
@@ -73,6 +75,9 @@ func c06Execute(in *cacheIn, env *Env, failAt int, kind string) (ex c06Exec) {
 		}
 		st := &FaultState{FailAt: map[int]string{}, KeepTrace: failAt < 0}
 		st.OnFire = func(k string) { env.Count("fault." + k) }
+		if failAt >= 0 {
+			st.FailAt[failAt] = kind
+		}
 		var remote filesystem.Filespace = NewFaultFS(base, st)
 		cache, err := fscache.NewMemCache(remote)
 		if err != nil {
@@ -80,6 +85,7 @@ func c06Execute(in *cacheIn, env *Env, failAt int, kind string) (ex c06Exec) {
 		}
 		h := &histChecker{prop: "C06", model: model, root: cache, views: []fsView{{fs: cache}}, env: env, lenientMutations: true, ignoreReads: true}
 		committed := model.Clone() // what the remote must look like until the next Commit
+		dirty := false             // a Commit failed under a fault: the remote is in between until one succeeds
 		checkRemote := func(want *ModelTree, when string, clause string) *Failure {
 			got, c, msg := WalkFS(base)
 			if c != "" {
@@ -89,6 +95,45 @@ func c06Execute(in *cacheIn, env *Env, failAt int, kind string) (ex c06Exec) {
 				return failf("C06/"+clause, when, "%s: remote tree: %s", when, d)
 			}
 			return nil
+		}
+		// commit performs one Commit and judges it; returns false when the history ends here
+		commit := func(when string) bool {
+			firedBefore := len(st.Fired)
+			err := cache.Commit()
+			faulted := len(st.Fired) > firedBefore
+			switch {
+			case faulted && err == nil:
+				ex.fail = failf("C06/commit-swallowed-failure", st.Fired[firedBefore].Kind, "%s: a remote %s during Commit (%s) was not reported: Commit returned nil", when, st.Fired[firedBefore].Kind, st.Fired[firedBefore].Op)
+				return false
+			case faulted:
+				dirty = true
+				return true
+			case err != nil && dirty:
+				ex.fail = failf("C06/recovery-commit-failed", st.Fired[len(st.Fired)-1].Kind, "%s: after a %s at %s the following fault-free Commit failed: %v", when, st.Fired[len(st.Fired)-1].Kind, st.Fired[len(st.Fired)-1].Op, err)
+				return false
+			case err != nil:
+				// a Commit that fails with no fault at all: only "nothing outside the journalled paths changed" could be judged; stop
+				env.Count("probe.fault-free-commit-failed")
+				ex.cut = true
+				return false
+			}
+			clause, label := "remote-differs-after-commit", "after-commit"
+			if dirty {
+				clause, label = "remote-differs-after-recovery", "after-recovery-commit"
+			}
+			if f := checkRemote(model, label, clause); f != nil {
+				if dirty {
+					f.Key = st.Fired[len(st.Fired)-1].Kind
+					f.Msg = fmt.Sprintf("%s: after a %s at %s and a fault-free Commit: %s", when, st.Fired[len(st.Fired)-1].Kind, st.Fired[len(st.Fired)-1].Op, f.Msg)
+				} else {
+					f.Msg = when + ": " + f.Msg
+				}
+				ex.fail = f
+				return false
+			}
+			dirty = false
+			committed = model.Clone()
+			return true
 		}
 		commitPoints := map[int]bool{}
 		for _, c := range in.Commits {
@@ -102,61 +147,36 @@ func c06Execute(in *cacheIn, env *Env, failAt int, kind string) (ex c06Exec) {
 				ex.cut = true
 				return
 			}
-			if f := checkRemote(committed, "before-commit", "remote-modified-before-commit"); f != nil {
-				f.Msg = fmt.Sprintf("after op %d %s: %s", i, op, f.Msg)
-				ex.fail = f
-				return
-			}
-			if commitPoints[i] {
-				if err := cache.Commit(); err != nil {
-					// a Commit that fails with no fault injected: only "nothing outside the journalled paths changed" could be judged; stop here
-					env.Count("probe.fault-free-commit-failed")
-					ex.cut = true
-					return
-				}
-				if f := checkRemote(model, "after-commit", "remote-differs-after-commit"); f != nil {
-					f.Msg = fmt.Sprintf("after op %d and Commit: %s", i, f.Msg)
+			if !dirty {
+				if f := checkRemote(committed, "before-commit", "remote-modified-before-commit"); f != nil {
+					f.Msg = fmt.Sprintf("after op %d %s: %s", i, op, f.Msg)
 					ex.fail = f
 					return
 				}
-				committed = model.Clone()
+			}
+			if commitPoints[i] {
+				start := st.Pos
+				if !commit(fmt.Sprintf("Commit after op %d", i)) {
+					return
+				}
+				ex.ranges = append(ex.ranges, [2]int{start, st.Pos})
 			}
 		}
-		// the last Commit, possibly faulted
-		start := st.Pos
-		if failAt >= 0 {
-			st.FailAt[start+failAt] = kind
+		ex.lastStart = st.Pos
+		if !commit("last Commit") {
+			return
 		}
-		ex.commitErr = cache.Commit()
-		ex.positions = st.Pos - start
-		ex.fired = len(st.Fired)
-		if failAt < 0 {
-			ex.trace = append([]string(nil), st.Trace[min(start, len(st.Trace)):]...)
-			if ex.commitErr != nil {
-				env.Count("probe.fault-free-commit-failed")
-				ex.cut = true
+		ex.positions = st.Pos - ex.lastStart
+		if dirty {
+			// faults stop; a later Commit must succeed and bring the remote to the model tree
+			st.FailAt = map[int]string{}
+			if !commit("Commit after the failed one") {
 				return
 			}
-			ex.fail = checkRemote(model, "after-commit", "remote-differs-after-commit")
-			return
 		}
-		if ex.fired == 0 {
-			return // the faulted position was not reached (iteration order differs): nothing to judge
-		}
-		if ex.commitErr == nil {
-			ex.fail = failf("C06/commit-swallowed-failure", kind, "a remote %s during Commit (%s) was not reported: Commit returned nil", kind, st.Fired[0].Op)
-			return
-		}
-		// faults stop; a later Commit must succeed and bring the remote to the model tree
-		st.FailAt = map[int]string{}
-		if err := cache.Commit(); err != nil {
-			ex.fail = failf("C06/recovery-commit-failed", kind, "after a %s at %s the following fault-free Commit failed: %v", kind, st.Fired[0].Op, err)
-			return
-		}
-		if f := checkRemote(model, "after-recovery-commit", "remote-differs-after-recovery"); f != nil {
-			f.Msg = fmt.Sprintf("after a %s at %s and a fault-free Commit: %s", kind, st.Fired[0].Op, f.Msg)
-			f.Key = kind
-			ex.fail = f
+		ex.fired = len(st.Fired)
+		if failAt < 0 {
+			ex.trace = append([]string(nil), st.Trace...)
 		}
 	})
 	if f := env.SimFailure("C06", res); f != nil && ex.fail == nil {
@@ -179,8 +199,7 @@ func c06Run(inI interface{}, env *Env) *Failure {
 		return nil
 	}
 	env.CountN("commit.remote-io-positions", dry.positions)
-	// every position x kind
-	for pos := 0; pos < dry.positions && pos < 120; pos++ {
+	faulted := func(pos int, where string) *Failure {
 		kinds := []string{""}
 		if pos < len(dry.trace) && strings.HasPrefix(dry.trace[pos], "Write ") {
 			kinds = []string{"", "torn"}
@@ -189,12 +208,27 @@ func c06Run(inI interface{}, env *Env) *Failure {
 			var ex c06Exec
 			env.WithReplay(seg, func() { ex = c06Execute(in, env, pos, k) })
 			env.Count("faulted-executions")
-			if ex.fired == 0 {
+			if ex.fired == 0 && ex.fail == nil && !ex.cut {
 				env.Count("probe.faulted-position-not-reached")
 			}
 			if ex.fail != nil {
-				ex.fail.Msg = fmt.Sprintf("[fault at Commit position %d] %s", pos, ex.fail.Msg)
+				ex.fail.Msg = fmt.Sprintf("[fault at remote I/O position %d, %s] %s", pos, where, ex.fail.Msg)
 				return ex.fail
+			}
+		}
+		return nil
+	}
+	// every position of the last Commit
+	for pos := dry.lastStart; pos < dry.lastStart+dry.positions && pos < dry.lastStart+120; pos++ {
+		if f := faulted(pos, "last Commit"); f != nil {
+			return f
+		}
+	}
+	// sampled positions of the intermediate Commits: the history goes on after the failure
+	for _, rg := range dry.ranges {
+		for k := 0; k < 4 && rg[1] > rg[0]; k++ {
+			if f := faulted(rg[0]+env.Draw(rg[1]-rg[0]), "intermediate Commit"); f != nil {
+				return f
 			}
 		}
 	}
